@@ -7,7 +7,7 @@ import os
 
 from hypothesis import strategies as st
 
-from pbt import faults as F, strategies as S, wire
+from pbt import faults as F, harvest, strategies as S, wire
 from pbt.refcodec import u as uint
 from pbt.runner import VERIF
 
@@ -259,6 +259,15 @@ def deep_fault_cases(tier, shard, nshards):
                         k += 1
 
 
+def dictionary_cases(tier, shard, nshards):
+    return [{'frame': f, 'faults': []} for f in wire.dictionary_frames()][shard::nshards]
+
+
+def wellformed_cases(tier):
+    return st.fixed_dictionaries({'frame': wire.wire_frames(big_bodies=False),
+                                  'faults': st.just([])})
+
+
 def hostile_key_cases(tier, shard, nshards):
     """a decode failure next to a peer-controlled name that is hostile to templating:
     every hostile key x every way a table value can fail x nesting position x carrier"""
@@ -275,7 +284,7 @@ def hostile_key_cases(tier, shard, nshards):
         b'V',                                   # (control: a good value)
     ]
     k = 0
-    for key in wire.HOSTILE_KEYS:
+    for key in wire.HOSTILE_KEYS + harvest.key_like():
         raw = key.encode('utf-8', 'surrogatepass')
         for bad in bad_values:
             for nest in ('top', 'in-table', 'in-array'):
